@@ -3,6 +3,7 @@ package harness
 import (
 	"fmt"
 	"os"
+	"sync"
 	"testing"
 	"time"
 
@@ -57,7 +58,7 @@ func drawC09(t *rapid.T) *c09Scenario {
 			s.VolumeOf = append(s.VolumeOf, i)
 		}
 	}
-	kinds := []string{"node", "node", "node", "node", "claim", "claim", "claim", "evict", "evict", "evict", "kubelet", "kubelet", "detach", "clock", "clock", "restart", "notready", "ready", "delete", "progress", "progress", "progress", "progress", "land"}
+	kinds := []string{"node", "node", "node", "node", "claim", "claim", "claim", "evict", "evict", "evict", "kubelet", "kubelet", "detach", "clock", "clock", "restart", "notready", "ready", "delete", "progress", "progress", "progress", "progress", "land", "nodeThenClaimAt", "claimThenNodeAt"}
 	minOps := rapid.IntRange(6, 30).Draw(t, "minOps")
 	s.Ops = rapid.SliceOfN(rapid.Custom(func(t *rapid.T) c09Op {
 		return c09Op{Kind: rapid.SampledFrom(kinds).Draw(t, "kind"), Arg: rapid.IntRange(0, 7).Draw(t, "arg")}
@@ -341,6 +342,26 @@ func runC09(s *c09Scenario, faultIdx, faultKind int) *c09Run {
 		startDelete()
 	}
 	var doOp func(op c09Op)
+	// interleaving (see nodeThenClaimAt): one permanent monitor, armed by ilK > 0
+	ilK, ilSeen, ilNested, ilSecond := 0, 0, false, ""
+	var ilMu sync.Mutex
+	w.Monitors = append(w.Monitors, func(_ *sim.World, cl *sim.Call) {
+		ilMu.Lock()
+		if ilK == 0 || ilNested || !inController || !cl.IsWrite() {
+			ilMu.Unlock()
+			return
+		}
+		ilSeen++
+		fire := ilSeen == ilK
+		if fire {
+			ilNested = true
+		}
+		ilMu.Unlock()
+		if fire {
+			doOp(c09Op{Kind: ilSecond})
+			inController = true
+		}
+	})
 	doOp = func(op c09Op) {
 		switch op.Kind {
 		case "progress":
@@ -358,6 +379,16 @@ func runC09(s *c09Scenario, faultIdx, faultKind int) *c09Run {
 			doOp(c09Op{Kind: "clock", Arg: 0})
 			doOp(c09Op{Kind: "clock", Arg: 0})
 			doOp(c09Op{Kind: "claim"})
+		case "nodeThenClaimAt", "claimThenNodeAt":
+			// the two controllers run concurrently in the operator: one reconcile of the other controller happens at the
+			// k-th API write of this one (they only meet through the API and the provider)
+			first, second := "node", "claim"
+			if op.Kind == "claimThenNodeAt" {
+				first, second = "claim", "node"
+			}
+			ilK, ilSeen, ilNested, ilSecond = op.Arg%3+1, 0, false, second
+			doOp(c09Op{Kind: first})
+			ilK = 0
 		case "land":
 			// a pod is bound to the node although it is being drained (explicit spec.nodeName, or a scheduler that has not
 			// seen the taint yet)
@@ -491,7 +522,7 @@ func execC09(s *c09Scenario, c *ev.Ctx) {
 
 var propC09 = ev.Prop[c09Scenario]{
 	ID: "C09", Test: "TestC09", Level: "fault_enumeration",
-	Rule: "rapid draws a NodeClaim at {unlaunched, launched, registered, initialized} with its Node, 0-4 pods (as C10: drainable / do-not-disrupt / daemon / critical / stuck terminating / tolerating / static, PDBs), VolumeAttachments of some pods, terminationGracePeriod none/30s/10m, instance already gone or needing 1-3 provider deletes, deletion started on the NodeClaim or on the Node, and 6-48 operations from {node-termination reconcile, NodeClaim-lifecycle reconcile, eviction-queue reconcile, kubelet finishes a pod, attach-detach removes a VA, clock +6s/40s/2m/11m, controller restart (fresh controllers, eviction queue lost), node Ready/NotReady, delete}; a fault-free run counts the controllers' API writes and provider calls and EVERY index is failed once (quick: one drawn kind of 500/conflict/not-found, thorough: all three); " +
+	Rule: "rapid draws a NodeClaim at {unlaunched, launched, registered, initialized} with its Node, 0-4 pods (as C10: drainable / do-not-disrupt / daemon / critical / stuck terminating / tolerating / static, PDBs), VolumeAttachments of some pods, terminationGracePeriod none/30s/10m, instance already gone or needing 1-3 provider deletes, deletion started on the NodeClaim or on the Node, and 6-48 operations from {node-termination reconcile, NodeClaim-lifecycle reconcile, eviction-queue reconcile, kubelet finishes a pod, attach-detach removes a VA, clock +6s/40s/2m/11m, a pod bound to the node during the drain, a progress round (node reconcile + eviction queue + kubelet + clock + NodeClaim reconcile), one controller's reconcile running at the k-th API write of the other's, controller restart (fresh controllers, eviction queue lost), node Ready/NotReady, delete}; a fault-free run counts the controllers' API writes and provider calls and EVERY index is failed once (quick: one drawn kind of 500/conflict/not-found, thorough: all three); " +
 		"oracle (monitors at the instant a finalizer is about to be removed): Node finalizer (node has a NodeClaim) only when cordoned, no drainable non-terminal pod left, no VolumeAttachment of a drainable pod unless past the termination time, instance gone - or the fast path node NotReady and instance already gone; NodeClaim finalizer only when its registered Node is gone and no instance the provider ever created for it exists; a NodeClaim gone from the API has no live instance; " +
 		"non-trivial = >=1 drainable pod and >=1 injected fault / restart before completion",
 	Assumptions: []string{"stuck-terminating = deletionTimestamp more than one minute in the past, as documented in the code"},
